@@ -55,6 +55,10 @@ structure Layer where
   inheritIsList : Bool
   /-- cache layers: the names to cache (`none` = all) -/
   cacheNames : Option (List String)
+  /-- inverse fields (`@inverse`): name ↦ function over inverse inputs and the layer's private parameters -/
+  inverses : List (String × Def) := []
+  /-- the inverse names the layer passes through unchanged (`__inherit__` normalised against the inverse fields) -/
+  backInherit : NameSet := .empty
   deriving Repr, Inhabited
 
 def isPrivate (n : String) : Bool := n.startsWith "_"
